@@ -4,7 +4,7 @@ import json, os
 V = os.path.dirname(os.path.dirname(os.path.abspath(__file__)))
 ids = [json.loads(l)["id"] for l in open(os.path.join(V, "properties.jsonl"))]
 
-TRUST = ("Trusted: Verus+Z3, rustc front end, the vx extractor (rewrite rules R0-R38 logged per run), the prelude "
+TRUST = ("Trusted: Verus+Z3, rustc front end, the vx extractor (rewrite rules R0-R39 logged per run), the prelude "
          "stand-ins for dependencies (listed per run in evidence.trusted_base). ")
 
 SMNOTE = (TRUST + "State-machine group: the embedder traits (Storage, PolicyEngine, Installer, Timer, TimeSource, MetricsReporter, HttpRequest, "
@@ -43,9 +43,11 @@ CLAIMS = {
    technique="contract-based deductive verification (Verus) of mechanically extracted functions", design="4/C03"),
  "C20": dict(
    text="Proof (Verus) of the real Version::from_str: Ok iff the string split at '.' has at most four pieces each of which std's u32 parser accepts, components are those numbers in order and the missing trailing ones are zero; more than four pieces, an empty / non-numeric / overflowing piece are rejected; no panic (index and unwrap obligations). "
+        "Proof (Verus) of the real Display impl: it writes exactly the four-part canonical text A.B.C.D (decimal components joined by '.'); lemma over the two contracts: parse(print(v)) = v for every v (split of the printed text yields the four decimal pieces, each read back by the u32 parser). "
+        "Proof (Verus) of the real Serialize impl (hands exactly that canonical text to serialize_str) and of VersionVisitor::visit_str (Ok iff the parser's contract accepts the string, with the parsed version). "
         "Complete proofs by Kani/CBMC (loop-free harnesses over full-domain symbolic inputs, no bound): derived Ord/PartialOrd/Eq of Version equal numeric lexicographic comparison of the four components for all 2^256 pairs; From<[u32; n]> (impl_from! macro output) zero-fills for n = 1..4.",
    note=TRUST + "`s.split('.').map(f)` is replaced by a stand-in that applies f to every piece of split_spec(s, '.') (eager instead of lazy; contract over f's own contract, so the closure `|s| s.parse::<u32>()` is verified, with parse::<u32> as std's uninterpreted dec_u32: optional '+', digits, <= u32::MAX); enumerate() is a stand-in on that type; anyhow error values are opaque. "
-        "Kani 0.68 / CBMC 6.11 and the harness oracle (lex_cmp written without loops) are trusted for the ordering half. Display (itertools format), parse(print(v)) = v and serde (string form) are NOT covered.",
+        "Kani 0.68 / CBMC 6.11 and the harness oracle (lex_cmp written without loops) are trusted for the ordering half. itertools' `iter().format(sep)` is a stand-in (R39) whose Display text is the items' decimal texts joined by sep; assumed of std: u64 Display emits digits only and from_str reads it back (axiom_dec_str_roundtrip). serde's side (Serializer::serialize_str produces the string value; deserialize_str hands the decoded string to visit_str; `to_string()` is what Display writes) is assumed by stand-in traits; the JSON text itself is serde_json's.",
    technique="contract-based deductive verification (Verus) of the extracted function; Kani function-level harnesses, loop-free over full domain (complete)", design="4/C20", kani=True),
  "C02": dict(
    text="Proof (Verus) of the real do_omaha_request_and_update_context, ping_omaha, report_omaha_event_and_update_context and perform_update_check: "
@@ -116,7 +118,7 @@ CLAIMS = {
         "Conformance lemma against the client verifier's contract (cup_etag_accepts, the predicate proved of verify_response under C01): the client holding the public half under that id accepts this ETag for that exchange, and the id the server parses back is the one the client named.",
    note=TRUST + "url::Url query parsing, hyper Bytes, sha2, hex and P-256 are stand-ins (query_pairs_of, sha256, hex_encode, ecdsa_sign uninterpreted; assumed: sign-then-verify, hex round trip and alphabet, decimal round trip). "
         "'for no other exchange' is unforgeability of ECDSA and collision resistance of SHA-256 and is not provable; the verified statement is that acceptance is tied to the digest of exactly (request, response, id, nonce) (C01). "
-        "handle_omaha_request (serde_json document assembly), handle_set_responses and the end-to-end state-machine clause are not under contract.",
+        "handle_omaha_request (serde_json document assembly), handle_set_responses and the end-to-end state-machine clause are not under contract, with one exception: the handler's decision which ETag goes into the reply (the scrutinee of `if let Some(etag) = ..`) is extracted positionally as a fragment (R25, fragments only) and verified: a forced ETag replaces the signed one, otherwise the signed one is sent, otherwise none.",
    technique="contract-based deductive verification (Verus) of mechanically extracted functions", design="4/C17"),
  "C15": dict(
    text="Proof (Verus) of the real RequestBuilder: new, insert_and_modify_entry (merge by app id: first insertion fixes position and app data incl. cohort; later insertions only run the modifier on that entry), add_update_check / add_ping / add_event (exact builder view after the call, events in insertion order, flags from the params), request_id / session_id, "
